@@ -74,7 +74,9 @@ func (l *Labels) FromBytes(data []byte) error {
 	if err != nil {
 		return err
 	}
-	l.original = data
+	// Keep a private copy: data usually is a slice of a receive buffer that
+	// the caller goes on to reuse.
+	l.original = append(make([]byte, 0, len(data)), data...)
 	l.Labels = labs
 	return nil
 }
